@@ -368,7 +368,11 @@ def run_scheduled(setup_ops, programs, schedule, keep=False):
             c.state = "running"
             c.thread.start()
             _wait(sched, c)            # runs to the "start" park
+            c.state = "running"
+            c.go.set()
+            _wait(sched, c)            # python-only prefix of the first op: up to its first real seam
         sched.steps.clear()
+        sched.debug.clear()
         pos = 0
         picks = []
         while True:
